@@ -9,7 +9,8 @@ From PV Require Import Base.Bytes Base.BytesLemmas Base.Proto Base.PyStr Base.Re
 From PV Require Import Spec.EncapParser Spec.MRParser Spec.TargetIface Spec.TargetCore Spec.Project Spec.Expect Spec.TargetLogix Spec.UploadObs.
 From PV Require Import Model.LogixUpload.
 From PV Require Import Proofs.UploadDefs Proofs.UploadParse Proofs.UploadFilter Proofs.UploadTemplate Proofs.UploadBlob
-  Proofs.UploadObsP Proofs.UploadTarget Proofs.UploadMirror Proofs.UploadScope Proofs.UploadTop Proofs.UploadReach.
+  Proofs.UploadObsP Proofs.UploadTarget Proofs.UploadMirror Proofs.UploadScope Proofs.UploadTop Proofs.UploadReach
+  Proofs.UploadHistory.
 Open Scope string_scope.
 Open Scope list_scope.
 Open Scope Z_scope.
@@ -547,3 +548,37 @@ Section NoneSec.
     reflexivity.
   Qed.
 End NoneSec.
+
+(* ================================================================ after any earlier uploads *)
+(* get_tag_list("*") / get_tag_list(None) on a driver in ANY state u0 (whatever it uploaded before, from
+   whatever project) IS the upload of a fresh driver: it mirrors the CURRENT project, data_types
+   included — nothing of an earlier upload survives (/repo 0c7d79e resets _data_types too) *)
+Theorem upload_history p pol cap rev_major fuel u0 arg :
+  match arg with ArgProgram _ => False | _ => True end ->
+  snd (get_tag_list lstate (target_call cap) rev_major fuel u0 (target_state p pol) arg)
+  = upload_target cap rev_major fuel p pol arg.
+Proof.
+  intros H. unfold upload_target. rewrite (get_tag_list_forgets lstate (target_call cap) rev_major fuel u0 _ arg H). reflexivity.
+Qed.
+
+Theorem upload_history_star p pol cap rev_major fuel u0 :
+  wf_project p = true -> upload_dom p cap -> NoDup (map full_name (visible_tags p)) -> (fuel_bound p <= fuel)%nat ->
+  exists r ov,
+    snd (get_tag_list lstate (target_call cap) rev_major fuel u0 (target_state p pol) ArgStar) = Done r
+    /\ obs_of_view (with_access rev_major) (abstract_view p) = Some ov
+    /\ oview_equiv (obs_of_result (with_access rev_major) r) ov.
+Proof.
+  intros Hwf Hdom Hfull Hfuel. rewrite (upload_history p pol cap rev_major fuel u0 ArgStar I).
+  exact (upload_mirrors_star p pol cap rev_major Hwf Hdom fuel Hfull Hfuel).
+Qed.
+
+Theorem upload_history_none p pol cap rev_major fuel u0 :
+  wf_project p = true -> upload_dom p cap -> NoDup (map full_name (visible_tags p)) -> (fuel_bound p <= fuel)%nat ->
+  exists r ov,
+    snd (get_tag_list lstate (target_call cap) rev_major fuel u0 (target_state p pol) ArgNone) = Done r
+    /\ obs_of_view (with_access rev_major) (abstract_view (controller_scope p)) = Some ov
+    /\ oview_equiv (obs_of_result (with_access rev_major) r) ov.
+Proof.
+  intros Hwf Hdom Hfull Hfuel. rewrite (upload_history p pol cap rev_major fuel u0 ArgNone I).
+  exact (upload_mirrors_none p pol cap rev_major Hwf Hdom fuel Hfull Hfuel).
+Qed.
